@@ -18,13 +18,13 @@ import (
 
 // Event is one relevant system call.
 type Event struct {
-	J     int    `json:"j"`    // 1-based index among relevant calls
-	Name  string `json:"name"` // openat, read, write, close, renameat, unlinkat, newfstatat, fstat, fchmod...
-	A     string `json:"a"`    // first path (or the path behind the fd)
-	B     string `json:"b"`    // second path (rename)
-	Flags int    `json:"flags"`
-	Ret   int64  `json:"ret"`  // return value (negative errno on failure)
-	Injected bool `json:"injected,omitempty"`
+	J        int    `json:"j"`    // 1-based index among relevant calls
+	Name     string `json:"name"` // openat, read, write, close, renameat, unlinkat, newfstatat, fstat, fchmod...
+	A        string `json:"a"`    // first path (or the path behind the fd)
+	B        string `json:"b"`    // second path (rename)
+	Flags    int    `json:"flags"`
+	Ret      int64  `json:"ret"` // return value (negative errno on failure)
+	Injected bool   `json:"injected,omitempty"`
 }
 
 // Plan selects a crash or fault point (1-based index of relevant calls; 0 = none).
@@ -38,6 +38,11 @@ type Plan struct {
 
 // Result of a traced run.
 type Result struct {
+	// Foreign lists attempts to remove or rename a path outside the run directory (e.g.
+	// /dev/stdout). The stepper does not let them happen - the call is skipped and returns
+	// EPERM, as it would for an unprivileged user - so that a check running as root cannot
+	// damage the machine it runs on; the attempt itself is reported to the caller.
+	Foreign  []Event
 	Events   []Event
 	Exit     int
 	Killed   bool
@@ -147,10 +152,11 @@ func run(bin string, args []string, dir string, stdin []byte, relevant func(stri
 	if err := syscall.PtraceSyscall(pid, 0); err != nil {
 		return res, err
 	}
-	inSys := map[int]bool{}      // tid -> currently between entry and exit
-	pending := map[int]*Event{}  // tid -> event awaiting its exit
-	inject := map[int]bool{}     // tid -> the pending call was turned into a failure
-	fds := map[int]string{}      // fd -> path (relevant files only)
+	inSys := map[int]bool{}     // tid -> currently between entry and exit
+	pending := map[int]*Event{} // tid -> event awaiting its exit
+	inject := map[int]bool{}    // tid -> the pending call was turned into a failure
+	foreign := map[int]*Event{} // tid -> denied destructive call on a path outside the run directory
+	fds := map[int]string{}     // fd -> path (relevant files only)
 	j := 0
 	deadline := time.Now().Add(timeout)
 	kill := func() {
@@ -199,7 +205,11 @@ func run(bin string, args []string, dir string, stdin []byte, relevant func(stri
 			if !inSys[tid] {
 				inSys[tid] = true
 				ev := decode(tid, &regs, fds)
-				if ev != nil && (relevant(ev.A) || (ev.B != "" && relevant(ev.B))) {
+				if ev != nil && (ev.Name == "unlinkat" || ev.Name == "renameat") && !relevant(ev.A) && !(ev.B != "" && relevant(ev.B)) {
+					regs.Orig_rax = ^uint64(0) // skip the call
+					syscall.PtraceSetRegs(tid, &regs)
+					foreign[tid] = ev
+				} else if ev != nil && (relevant(ev.A) || (ev.B != "" && relevant(ev.B))) {
 					j++
 					ev.J = j
 					pending[tid] = ev
@@ -231,6 +241,14 @@ func run(bin string, args []string, dir string, stdin []byte, relevant func(stri
 				}
 			} else {
 				inSys[tid] = false
+				if ev := foreign[tid]; ev != nil {
+					eperm := int64(syscall.EPERM)
+					regs.Rax = uint64(-eperm)
+					syscall.PtraceSetRegs(tid, &regs)
+					ev.Ret = -eperm
+					res.Foreign = append(res.Foreign, *ev)
+					delete(foreign, tid)
+				}
 				if ev := pending[tid]; ev != nil {
 					if inject[tid] {
 						regs.Rax = uint64(-int64(plan.Errno))
